@@ -30,7 +30,8 @@ SPEC = {
     "lean_modules": ["Honeycomb.Props.C11"],
     "required_theorems": [
         "C11_import_ok_WF", "C11_importLegacy_ok_WF", "C11_roundTrip_ok_WF", "C11_buildCells_structure",
-        "C11_sew_keeps_equal_coordinates", "C11_export_points", "C11_export_cells",
+        "C11_sew_keeps_equal_coordinates", "C11_export_points", "C11_export_cells", "C11_export_walk",
+        "C11_export_walk_closed", "C11_export_pointOf", "C11_crack_is_sewn",
     ],
     "trusted_base": [
         "Lean 4.33 kernel; axioms propext, Classical.choice, Quot.sound only",
@@ -842,6 +843,13 @@ def exhaustive_export_cases(nmax, rng):
 # the excluded points of DESIGN par. 7 (C11)
 # ---------------------------------------------------------------------------------------------
 
+OUTSIDE = {
+    "pillow-2-sides": "two coincident triangles of opposite orientation glued on two sides: overlapping faces, not an embedded mesh",
+    "double-edge": "two vertices joined by two edges, four triangles: two darts with the same (origin, target) vertex pair; "
+                   "not embeddable with straight sides",
+}
+
+
 def excluded_cases():
     cases = []
     A, B, C, D, E = (Fr(0), Fr(0)), (Fr(2), Fr(0)), (Fr(0), Fr(2)), (Fr(3), Fr(3)), (Fr(-3), Fr(-3))
@@ -872,6 +880,23 @@ def excluded_cases():
     b.sew(t1[0], t3[0])
     b.sew(t2[0], t4[0])
     cases.append(rt_case("double-edge", b.lines(auto=False), "excluded: repeated directed vertex pair (not embeddable)"))
+    return cases
+
+
+def cracked_grid_cases(rng, count, nmax=4):
+    """grids in which random edges have been 2-unsewn: a crack whose two end vertices stay whole is healed by
+    the round trip (known finding C11-crack); a crack reaching the boundary splits its end vertex (two
+    vertex ids, two exported points) and is preserved"""
+    cases = []
+    for c in range(count):
+        split = rng.random() < 0.3
+        nx, ny = rng.randint(2, nmax), rng.randint(2, nmax)
+        ox, oy, lx, ly = rng.choice(GEOMS)
+        nd = (6 if split else 4) * nx * ny
+        pre = [grid_line(1 if split else 0, ox, oy, nx, ny, lx, ly)]
+        for _ in range(rng.randint(1, 3)):
+            pre.append(f"funsew 2 {rng.randint(1, nd)}")     # boundary darts answer an error: harmless
+        cases.append(rt_case(f"crack{c}", pre, "cracked grid"))
     return cases
 
 
@@ -944,22 +969,35 @@ def run(tier, seed):
     q = tier == "quick"
     parts = []
     parts.append(("grids and split grids (round trip)", hv.campaign(grid_cases(4 if q else 8), oracle)))
-    parts.append(("polygons 3..12 sides", hv.campaign(polygon_cases(rng, 2 if q else 10), oracle)))
-    parts.append(("polygons sharing sides", hv.campaign(shared_cases(rng, 40 if q else 400), oracle)))
-    parts.append(("triangulated grids with hanging nodes", hv.campaign(triangulated_cases(rng, 120 if q else 1200, 3 if q else 5), oracle)))
-    parts.append(("wide coordinates", hv.campaign(wide_cases(rng, 60 if q else 600), oracle)))
-    parts.append(("conforming cell lists", hv.campaign(conforming_cases(rng, 500 if q else 5000, 3 if q else 6), oracle)))
-    parts.append(("conforming lists grown by gluing", hv.campaign(glued_abstract_cases(rng, 400 if q else 4000), oracle)))
-    parts.append(("non-conforming lists", hv.campaign(nonconforming_cases(rng, 800 if q else 8000), oracle)))
-    parts.append(("raw legacy data", hv.campaign(raw_legacy_cases(rng, 600 if q else 6000), oracle)))
+    parts.append(("polygons 3..12 sides", hv.campaign(polygon_cases(rng, 5 if q else 25), oracle)))
+    parts.append(("polygons sharing sides", hv.campaign(shared_cases(rng, 120 if q else 1200), oracle)))
+    parts.append(("triangulated grids with hanging nodes", hv.campaign(triangulated_cases(rng, 400 if q else 4000, 3 if q else 6), oracle)))
+    parts.append(("wide coordinates", hv.campaign(wide_cases(rng, 200 if q else 2000), oracle)))
+    parts.append(("conforming cell lists", hv.campaign(conforming_cases(rng, 1500 if q else 15000, 3 if q else 6), oracle)))
+    parts.append(("conforming lists grown by gluing", hv.campaign(glued_abstract_cases(rng, 1500 if q else 15000), oracle)))
+    parts.append(("non-conforming lists", hv.campaign(nonconforming_cases(rng, 3000 if q else 30000), oracle)))
+    parts.append(("raw legacy data", hv.campaign(raw_legacy_cases(rng, 2000 if q else 20000), oracle)))
     r = hv.campaign(exhaustive_export_cases(3 if q else 4, rng), oracle)
     r["stats"]["exhaustive"] = True
     parts.append((f"export / round trip of every well-formed map with n<={3 if q else 4}", r))
-    parts.append(("general well-formed maps", hv.campaign(export_general_cases(rng, 600 if q else 6000), oracle)))
-    parts.append(("excluded points (DESIGN par.7)", hv.campaign(excluded_cases(), oracle)))
-    parts.append(("f32 (implementation only)", campaign_impl_only(f32_cases(rng, 30 if q else 300))))
+    parts.append(("general well-formed maps", hv.campaign(export_general_cases(rng, 2000 if q else 20000), oracle)))
+    parts.append(("cracked grids", hv.campaign(cracked_grid_cases(rng, 150 if q else 1500, 4 if q else 7), oracle, max_report=10 ** 6)))
+    rx = hv.campaign(excluded_cases(), oracle)
+    observations = []
+    kept = []
+    for v in rx["violations"]:
+        cid = v.get("replay", {}).get("case", "")
+        if v["kind"] == "oracle" and cid in OUTSIDE:
+            # not a mesh of the property's quantifier: recorded, not judged
+            observations.append(f"excluded point `{cid}` ({OUTSIDE[cid]}): {v['replay'].get('oracle_failure')}")
+            rx["stats"]["oracle_failures"] -= 1
+        else:
+            kept.append(v)
+    rx["violations"] = kept
+    parts.append(("excluded points (DESIGN par.7)", rx))
+    parts.append(("f32 (implementation only)", campaign_impl_only(f32_cases(rng, 100 if q else 1000))))
     res = hv.merge_results(parts)
-    res["notes"] = res.get("notes", []) + [
+    res["notes"] = res.get("notes", []) + observations + [
         "the builder's attribute manager is ignored by build_2d_from_vtk (`_manager`): from_vtk_file(..).add_attribute::<A>()"
         ".build() returns a map WITHOUT A (contains_attribute::<A>() = false); `vtkimp <mask>` answers `ok 0` for every mask",
         "export of a map with a dart that is both 1-free and 2-free panics (id_map[&vertex_id(0)]); a vertex id without "
